@@ -127,7 +127,9 @@ def run(chk):
     for nf0 in (3, 4):
         atlas = Atlas(MatchingScales(list(walls)), (mu0, nf0))
         for name, grid, extra in (("one", [(mu1, 5)], []), ("two_distinct", [(mu1, 5), (mu2, 5)], [T.cmp("!=", mu1, mu2)]), ("two_equal", [(mu1, 5), (mu1, 5)], []),
-                                  ("two_nf", [(mu1, 4), (mu1, 5)], []), ("three", [(mu1, 4), (mu2, 6), (mu1, 6)], [T.cmp("!=", mu1, mu2)])):
+                                  ("two_nf", [(mu1, 4), (mu1, 5)], []), ("three", [(mu1, 4), (mu2, 6), (mu1, 6)], [T.cmp("!=", mu1, mu2)]),
+                                  # a target exactly ON a matching scale (lower nf) next to one beyond it: the same stretch once as final segment, once followed by the matching
+                                  ("on_wall_then_beyond", [(b, 4), (mu2, 5)], [mu2 > b, mu0 < b, c < b]), ("beyond_then_on_wall", [(mu2, 5), (b, 4)], [mu2 > b, mu0 < b, c < b])):
             tag = f"C02._create[nf0={nf0},{name}]"
             req = base + [mu1 > 0, mu2 > 0] + extra
             for pt, pc, res in chk.run_paths(tag, lambda: recipes._create(grid, atlas), req, fn="eko.runner.recipes:_create", replay=rp):
